@@ -388,6 +388,8 @@ class FnAnalysis:
             if "variant" in rc:
                 return T.refval(T.agg("adt", norm(rc["adt"]), rc["variant"], rc["variant_name"], []))
             return T.refval(T.const(norm(rc["ty"]), int(rc["bits"])))
+        if c.get("opaque") in (self.fn.get("generic_params") or ()):
+            return Term("cparam", c.get("opaque"), norm(c["ty"]))   # a const generic parameter of this function
         return Term("opaque", c.get("opaque"), norm(c["ty"]))
 
     def operand(self, st, o):
@@ -1166,7 +1168,7 @@ class FnAnalysis:
             for s_, sst in outs.items():
                 work.append((s_, State(dict(sst.env), sst.facts), calls))
         self._record = True
-        return out
+        return self.expand_trees(out, limit * 8)
 
     def value_at(self, st, lv):
         return self.read(st, lv)
@@ -1239,9 +1241,6 @@ class Program:
         leaves = [(t, st) for t, st, _ in ps] if ps is not None else sub.ret_leaves()
         if not leaves or len(leaves) > limit * 2:
             return None
-        leaves = sub.expand_trees(leaves)
-        if not leaves:
-            return None
         items = []
         for t, st in leaves:
             v = value_of(sub.simp(t, st.facts), st)
@@ -1305,12 +1304,12 @@ class Program:
             if sub is not None:
                 rt = sub.ret_term()
                 if rt is not None and self._closed(rt):
-                    inst = self.subst(an, st, rt, args)
+                    inst = self.subst(an, st, rt, args, self.gmap(lf, callee))
                     if inst is not None:
                         return inst
                 tree = self.closed_tree(lf)
                 if tree is not None:
-                    inst = self.subst(an, st, tree, args)
+                    inst = self.subst(an, st, tree, args, self.gmap(lf, callee))
                     if inst is not None:
                         return inst
             return T.call(lf["qual"], generics, [self._stabilise(an, st, a) for a in args])
@@ -1379,7 +1378,17 @@ class Program:
                 return False
         return True
 
-    def subst(self, an, st, t, args):
+    def gmap(self, lf, callee):
+        """values of the callee's const generic parameters at this call"""
+        names, vals = lf.get("generic_params") or [], callee.get("resolved_generics") or callee.get("generics") or []
+        out = {}
+        if len(names) == len(vals):
+            for n, v in zip(names, vals):
+                if v.lstrip("-").isdigit():
+                    out[n] = int(v)
+        return out
+
+    def subst(self, an, st, t, args, gmap=None):
         memo = {}
 
         def go(x):
@@ -1397,6 +1406,8 @@ class Program:
                     raise KeyError
             elif op in ("const", "bytes", "zst", "fnptr"):
                 r = x
+            elif op == "cparam":
+                r = T.const(a[1], gmap[a[0]]) if gmap and a[0] in gmap else x
             elif op == "deref":
                 p = go(a[0])
                 if p.op == "ref":
